@@ -1,4 +1,6 @@
 import XzVerif.Proofs.Chunk
+import XzVerif.Proofs.LazyReject
+import XzVerif.Proofs.Lzma2RoundTrip
 /-
   C16 — LZMA2 chunk discipline: the reader accepts exactly the legal chunk sequences; the writer
   only emits legal ones.
@@ -91,5 +93,46 @@ example : Spec.legal [.l, .eos] = false ∧ Spec.legal [.ud, .l] = false ∧
     Spec.legal [.lrnd, .eos, .u] = false := by decide
 example : writerRun Gen.lzma_stateStart [true, false, true, false] =
     some ([Gen.lzma_cUD, Gen.lzma_cLRN, Gen.lzma_cU, Gen.lzma_cL], 76) := by decide
+
+/-! ### at the level the code runs: the lazy LZMA2 reader (Model/LazyDec2.lean, tied per call to the real Reader2)
+
+  The automaton theorems above are about chunk KINDS.  With the refinement of the lazy ring-level reader model to the
+  batch reader they become statements about what the reader delivers: -/
+
+open LazyDec LazyDec2 Lzma2 in
+/-- every accepted (legal, well-formed) sequence is decoded to the right bytes, under every schedule of buffer lengths -/
+theorem C16_lazy_reader_decodes_every_legal_sequence (cfgCap : Nat) (hcap : 4096 ≤ effCap cfgCap) (cs : Array Chunk)
+    (hok : ChunksOk false (e0 (effCap cfgCap)) .init cs.toList) (lens : List Nat)
+    (hsum : ((cs.foldl emitChunk (e0 (effCap cfgCap))).h.out).size < lens.sum) :
+    LazyDec.lastStat (LazyDec2.readSeq (newReader2 cfgCap (emit (effCap cfgCap) (cs.push { kind := .eos, usize := 0 }))) lens) = .eof ∧
+    delivered (LazyDec2.readSeq (newReader2 cfgCap (emit (effCap cfgCap) (cs.push { kind := .eos, usize := 0 }))) lens) =
+      (cs.foldl emitChunk (e0 (effCap cfgCap))).h.out := by
+  obtain ⟨r, h1, _, h3, _⟩ := decode_emit false (effCap cfgCap) cs hok
+  have hb : LazyDec2.batch cfgCap (emit (effCap cfgCap) (cs.push { kind := .eos, usize := 0 })) = (r, .eof) := h1
+  have hclean : (LazyDec2.batch cfgCap (emit (effCap cfgCap) (cs.push { kind := .eos, usize := 0 }))).2 = .eof := by rw [hb]
+  have hout : (LazyDec2.batch cfgCap (emit (effCap cfgCap) (cs.push { kind := .eos, usize := 0 }))).1.h.out =
+      (cs.foldl emitChunk (e0 (effCap cfgCap))).h.out := by rw [hb]; exact h3
+  have heof := LazyDec2.reaches_eof cfgCap hcap _ lens hclean (by rw [hout]; exact hsum)
+  have hf : (LazyDec2.batch cfgCap (emit (effCap cfgCap) (cs.push { kind := .eos, usize := 0 }))).2 ≠ .err "fuel exhausted" := by
+    rw [hclean]; intro h; cases h
+  exact ⟨heof, by rw [(LazyDec2.eof_complete cfgCap hcap _ lens hf heof).2, hout]⟩
+
+open LazyDec LazyDec2 Lzma2 Spec in
+/-- **an illegal sequence is rejected at the offending chunk**: after a well-formed list `pre` (not ended), a chunk whose
+    kind the format does not allow there — whatever it contains (up to the 2 MiB a header can announce) and whatever
+    follows — makes every schedule end with an error (not unexpected-EOF, never `io.EOF`), after delivering exactly the
+    content of `pre`: all of it, and no byte of the offending chunk or of anything behind it. -/
+theorem C16_lazy_reader_rejects_at_offending_chunk (cfgCap : Nat) (hcap : 4096 ≤ effCap cfgCap)
+    (pre : Array Chunk) (bad : Chunk) (rest : Array Chunk)
+    (hok : ChunksOk false (e0 (effCap cfgCap)) .init pre.toList)
+    (hne : LazyReject.seqAfter pre.toList ≠ .ended)
+    (hbad : seqStep (LazyReject.seqAfter pre.toList) bad.kind = none)
+    (hsz : lzUsize (pre.foldl emitChunk (e0 (effCap cfgCap))) bad ≤ 2 ^ 21)
+    (lens : List Nat) (hsum : ((pre.foldl emitChunk (e0 (effCap cfgCap))).h.out).size < lens.sum) :
+    (∃ e, LazyDec.lastStat (LazyDec2.readSeq (newReader2 cfgCap (emit (effCap cfgCap) (pre ++ #[bad] ++ rest))) lens) = .err e ∧
+      e ≠ .unexpectedEOF) ∧
+    delivered (LazyDec2.readSeq (newReader2 cfgCap (emit (effCap cfgCap) (pre ++ #[bad] ++ rest))) lens) =
+      (pre.foldl emitChunk (e0 (effCap cfgCap))).h.out :=
+  LazyReject.lazy_rejects_at_offending_chunk cfgCap hcap pre bad rest hok hne hbad hsz lens hsum
 
 end Props.C16
